@@ -13,6 +13,7 @@ import (
 	"berty.tech/go-ipfs-log/entry"
 	"berty.tech/go-ipfs-log/iface"
 	"github.com/ipfs/go-cid"
+	cbornode "github.com/ipfs/go-ipld-cbor"
 )
 
 func sourceProfile(prop string, checks ...string) *Profile {
@@ -554,6 +555,53 @@ func (w *World) reachable(heads []string, bad map[string]bool, excluded map[stri
 
 var garbageCBOR = []byte{0xa1, 0x61, 0x76, 0x61, 0x78} // {"v":"x"}: valid dag-cbor, not an entry
 
+// The undecodable blocks a load meets are not only noise: a block can be well-formed DAG-CBOR, carry the
+// field names of an entry and still not be one (its clock, identity, key or links missing, null or of
+// another type). corruptAlt picks the replacement bytes for block h: noise, or such a near-entry which
+// the library's own point read refuses here and now (one it accepts is an entry, not a corrupt block).
+var nearEntryPaths = []string{"clock", "clock", "identity", "clock.id", "clock.time", "key", "sig", "next", "refs", "identity.signatures", "identity.publicKey", "id", "payload", "v"}
+
+func (w *World) corruptAlt(h string) []byte {
+	r := w.R
+	switch r.Choose("corrupt-how", 4) {
+	case 0:
+		return garbageCBOR
+	case 1:
+		return []byte{0xff, 0x00, 0x13}
+	}
+	raw, ok := w.St.Raw(w.Cids[h])
+	if !ok {
+		return garbageCBOR
+	}
+	var obj map[string]interface{}
+	if err := cbornode.DecodeInto(raw, &obj); err != nil {
+		return garbageCBOR
+	}
+	path := nearEntryPaths[r.Choose("near-entry-path", len(nearEntryPaths))]
+	kind := r.Choose("near-entry-kind", 3) // absent, null, wrong-type
+	if !mutateObj(obj, path, kind) {
+		return garbageCBOR
+	}
+	alt, err := encodeObj(obj)
+	if err != nil {
+		return garbageCBOR
+	}
+	scratch := NewStore()
+	scratch.PutRaw(w.Cids[h], alt)
+	var derr error
+	out := Protect(func() {
+		_, derr = entry.FromMultihashWithIO(w.ctx, scratch, w.Cids[h], Writers()[0].ID.Provider, w.IO)
+	})
+	if out.Status == "violation" {
+		r.Violate("C11:undecodable-panic", "reading a block that has the shape of an entry but %s %s panicked instead of failing: %s", path, mutKinds[kind], out.Msg)
+	}
+	if derr == nil {
+		return garbageCBOR
+	}
+	r.Probe("corrupt-near-entry")
+	return alt
+}
+
 func RunC11(r *Run) {
 	w := BuildWorld(r, sourceProfile("C11"))
 	for s := 0; s < 5; s++ {
@@ -589,11 +637,7 @@ func RunC11(r *Run) {
 			k := GetFault(1 + r.Choose("fault-kind", 4))
 			w.St.GetFaults[h] = k
 			if k == FaultCorrupt {
-				if r.Choose("corrupt-how", 2) == 0 {
-					w.St.Alt[h] = garbageCBOR
-				} else {
-					w.St.Alt[h] = []byte{0xff, 0x00, 0x13}
-				}
+				w.St.Alt[h] = w.corruptAlt(h)
 			}
 			bad[h] = true
 		}
